@@ -18,18 +18,18 @@ def add(pid, engine, level, text, note, technique, ref):
 
 GENNOTE = ("Bounded-exhaustive enumeration: every case inside the stated bounds is generated and executed on the real code inside catch_unwind; "
            "the oracle is a reference function written in the harness. Nothing is sampled.")
-add("C01", "HX", MC, "Explicit-state exploration of the product (real Sodg x reference model): every history over small id/label/data alphabets incl. next_id, clone, save+load and merge transitions, to closure where the state graph closes (then histories of any length are covered) and depth-bounded elsewhere, plus seeded runs; after every call the alive set may only shrink as the model's first-read rule allows.", HXNOTE, "explicit-state model checking of the implementation (BFS, lossless state keys) against an executable reference model", "5/C01")
+add("C01", "HX", MC, "Explicit-state exploration of the product (real Sodg x reference model): every history over small id/label/data alphabets incl. next_id, clone, save+load, merge and refused-merge transitions (after a refusal the model takes over the left graph as found and the history goes on), to closure where the state graph closes (then histories of any length are covered) and depth-bounded elsewhere, plus seeded runs; after every call the alive set may only shrink as the model's first-read rule allows.", HXNOTE, "explicit-state model checking of the implementation (BFS, lossless state keys) against an executable reference model", "5/C01")
 add("C02", "HX+family", MC, "Same exploration; oracle = alive set equals the model's after every call, no in-limit call panics, plus a drain probe on every state that turns latent counter drift into an observable divergence; directed exhaustive family: all 2^14 ways to grow a group to 16 members.", HXNOTE, "explicit-state model checking of the implementation against a reference model + exhaustive directed family in lock-step with the model", "5/C02")
 add("C03", "HX+sweep", MC, "Same exploration with richer label/data alphabets (label capacity hit); after every call kid()/kids() of every present vertex and every data() return value equal the model; exhaustive value sweep over 40 labels x data lengths 0..=17 x N in {1,2,16}.", HXNOTE, "explicit-state model checking of the implementation against a reference model + exhaustive value sweep", "5/C03")
 add("C04", "HX", MC, "Same exploration incl. recycled-slot seeds; every add() is judged: blank vertex on an absent id, and on a present id a differential oracle (reading everything, in both orders, goes exactly as without the add).", HXNOTE, "explicit-state model checking of the implementation, differential oracle on add()", "5/C04")
-add("C05", "HX+family", MC, "Exploration with next_id() as its own transition (result recorded, not added) interleaved with add/bind/put/data/collections/clone/reload/merge; the model state carries the set of ids returned so far, so a repeated id is seen whatever the allocation policy; directed families: runs of present vertices at the allocator position in stores of capacity 1..1024, and ids handed to script variables by succeeding and failing scripts.", HXNOTE, "explicit-state model checking of the implementation with the returned-id set in the model state", "5/C05")
+add("C05", "HX+family", MC, "Exploration with next_id() as its own transition (result recorded, not added) interleaved with add/bind/put/data/collections/clone/reload/merge; the model state carries the set of ids returned so far, so a repeated id is seen whatever the allocation policy; directed families: runs of present vertices at the allocator position in stores of capacity 1..1024, ids handed to script variables by succeeding and failing scripts, and every merge of a right graph on 2-3 vertices that is not a tree onto 452 left shapes followed by next_id() calls (oracle read off the real graph: below the capacity, absent, not handed out or created before).", HXNOTE, "explicit-state model checking of the implementation with the returned-id set in the model state", "5/C05")
 add("C06", "HX+family", MC, "Closure runs (a closed state graph covers histories of any length: the 15th, 150th group still forms and dies) + directed exhaustive family at full scale: 14 groups, every occupancy pattern killed, then 45..300 create-put-read cycles with 0..13 groups kept alive, in lock-step with the model.", HXNOTE, "explicit-state model checking to closure + exhaustive directed family in lock-step with the model", "5/C06")
 add("C07", "C07-explorer under ASan", EX, "Breadth-first exploration of an alphabet that violates limits and preconditions on purpose, every call sequence up to a depth, objects explored further after caught panics, plus directed overflow histories with the victim in every slot; the explorer binary is built with AddressSanitizer and supervised: a sanitizer abort becomes a VIOLATION with the state in flight. Oracles: in-limit calls complete; the three named overruns stop.", "Exhaustive enumeration, dynamic detector: AddressSanitizer sees accesses that leave their allocation, not overflows inside one allocation; leak detection off (emap never drops elements); debug assertions on, as the property says.", "bounded exhaustive exploration of call sequences on the real code under AddressSanitizer", "5/C07")
 add("C08", "HX+family", MC, "Exploration with reload (save+load) as a transition: the reloaded object is the next state and every continuation from it is checked against the model (whose reload only resets the allocator); plus a reload probe on every state comparing every public observable and the course of all future reads; 5 data encodings, 3 label kinds, N in {1,2,16}, capacities 3..256; a continuation that diverges from the model although the same calls without the reload follow it is blamed on the reload (differential); directed family: 1..14 groups alive, reload (once or three times), everything read.", HXNOTE + " Images are written to tmpfs (/dev/shm) or /verif/.work.", "explicit-state model checking of the implementation with save+load as a transition", "5/C08")
-add("C09", "HX+CUTS", FE, "Every distinct image produced by the exploration (deduplicated by content) is cut at every byte position 0 <= k < size and passed to the real load(): each must be Err, never a panic, never a graph; the complete image must load.", "Fault model: truncation at any byte (what a crash during the single non-atomic fs::write leaves); no bit flips. Images come from the reachable states of the HX runs listed in the evidence.", "fault enumeration: all prefixes of all distinct reachable images", "5/C09")
+add("C09", "HX+CUTS", FE, "Every distinct image produced by the exploration (deduplicated by content) is cut IN PLACE (the file save() wrote over the complete image of another graph) at every byte position 0 <= k < size and passed to the real load(): each must be Err, never a panic, never a graph (neither the new one nor the older one); the complete image must load.", "Fault model: truncation at any byte (what a crash during the single non-atomic fs::write leaves); no bit flips. Images come from the reachable states of the HX runs listed in the evidence.", "fault enumeration: all prefixes of all distinct reachable images", "5/C09")
 add("C10", "HX+family", MC, "Exploration with clone-swap as a transition + clone probe on every state: the original is rebuilt from Sodg::empty() by replaying the whole history (no clone involved), its clone must answer every query alike, behave alike under all future reads and next_id calls, and mutating either never changes the other's complete snapshot; a continuation that diverges from the model although the same calls without the clone follow it is blamed on the clone (differential); directed family: 1..14 groups alive, clone (once or three times), everything read.", HXNOTE + " Whole-snapshot equality is used only for 'the other object did not change', where no call was made on it.", "explicit-state model checking of the implementation with clone as a transition, differential original-vs-clone oracle", "5/C10")
 add("C11", "TREEGEN", EX, "Every pair of labelled trees up to a size bound x every data placement x id assignments (incl. recycled slots) x every left: merge on the real code, the graft applied to the reference model as add/bind/put, then every order of reads compared with the model.", GENNOTE + " Checked up to the choice of new ids. The merge inside longer histories is additionally a transition of the HX runs.", "bounded exhaustive enumeration of tree pairs against a reference model", "5/C11")
-add("C12", "TREEGEN+extras", EX, "Every right graph = tree + every combination of up to 3 extras (isolated vertex, isolated vertex with data, detached sub-tree), right = every node: Ok iff the reference says everything present is reachable, else Err naming exactly the unreachable vertices.", GENNOTE, "bounded exhaustive enumeration of right graphs against a reachability reference", "5/C12")
+add("C12", "TREEGEN+extras", EX, "Every right graph = tree + every combination of up to 3 extras (isolated vertex, isolated vertex with data, detached sub-tree), right = every node: Ok iff the reference says everything present is reachable, else Err naming exactly the unreachable vertices; after an Ok every tree vertex has a present image; after every refusal the left graph plus a stray vertex is itself merged as a right graph under the same oracle.", GENNOTE, "bounded exhaustive enumeration of right graphs against a reachability reference", "5/C12")
 add("C13", "GRAPHGEN+HX", EX, "Every small digraph (all cyclic shapes, shared targets) x every start x EVERY subset of the edge set as predicate x EVERY drain order of slice's work-list (enumerated through the verif choice-point hook), wide shapes on Sodg<16>, and a slice probe on every state of the HX explorations; a hang or stack overflow is caught by the supervisor and reported with the graph in flight.", GENNOTE + " Rejected edges between kept vertices are neither required nor forbidden (the statement does not say).", "bounded exhaustive enumeration of graphs, predicates and work-list orders against a reachability reference", "5/C13")
 add("C14", "PROGGEN", EX, "Every ADD/BIND/PUT program up to a length over literal ids and variables x a menu (short programs: the full product) of legal formattings: complete state after deploy_to equals state after the same direct calls; plus every single-character fault at every position, judged by a conservative three-way reference parser (well-formed / definitely malformed / grey).", GENNOTE + " Grey zone (not judged) is listed in the evidence.", "bounded exhaustive enumeration of programs, renderings and single faults against direct execution", "5/C14")
 add("C15", "HEXGEN", EX, "Every length across the 8-byte boundary x content patterns x every representation of the same bytes (incl. inline arrays with non-zero padding and heap vectors of short strings) x every accessor, index and (start,end) of the six range kinds: outcome (value or panic) equals the same operation on the byte slice.", GENNOTE, "bounded exhaustive enumeration against the byte-slice reference", "5/C15")
